@@ -58,12 +58,12 @@ func (g *G) absSpelling(p string) string {
 	if g.Bool("viaParent") {
 		return "../w/" + p
 	}
-	return g.E.Box.Work + "/" + p
+	return "{{work}}/" + p // resolved when the step runs (engine.go, resolve)
 }
 
 // decorate renders a clean relative path in a non-canonical but equivalent spelling.
 func (g *G) decorate(p string) string {
-	if !g.E.decorateArgs || strings.HasPrefix(p, "/") || strings.HasPrefix(p, "../") || !g.Chance(25, "decorate") {
+	if !g.E.decorateArgs || strings.HasPrefix(p, "/") || strings.HasPrefix(p, "{{work}}") || strings.HasPrefix(p, "../") || !g.Chance(25, "decorate") {
 		return p
 	}
 	switch g.Int(0, 3, "spelling") {
